@@ -57,6 +57,11 @@ def rx(n):
         return str(n.get('value'))
     if k == 'CXXDefaultArgExpr':
         return '<default>'
+    if k == 'LambdaExpr':
+        body = [c for c in inner if c.get('kind') == 'CompoundStmt']
+        ls = []
+        norm_stmt(body[-1], ls, 0)
+        return 'lambda{ ' + ' ; '.join(x.strip() for x in ls) + ' }'
     if k == 'InitListExpr':
         return '{%s}' % ', '.join(rx(a) for a in inner)
     if k == 'UnaryExprOrTypeTraitExpr':
@@ -121,6 +126,8 @@ def norm_stmt(n, out, ind):
     if k == 'DeclStmt':
         ir = []
         for v in inner:
+            if v.get('kind') in ('TypedefDecl', 'TypeAliasDecl'):
+                continue
             if v.get('kind') != 'VarDecl':
                 raise Deviation('unsupported declaration ' + str(v.get('kind')))
             init = [c for c in v.get('inner', []) if isinstance(c, dict) and c.get('kind')]
@@ -170,6 +177,8 @@ def norm_stmt(n, out, ind):
         return body
     if k == 'BreakStmt':
         out.append(pad + 'break'); return ('break',)
+    if k == 'ContinueStmt':
+        out.append(pad + 'continue'); return ('seq', [])
     if k == 'ReturnStmt':
         es = [c for c in inner if isinstance(c, dict) and c.get('kind')]
         e = rx(es[0]) if es else ''
@@ -179,7 +188,7 @@ def norm_stmt(n, out, ind):
         first = [c for c in inner[0].get('inner', []) if isinstance(c, dict) and c.get('kind')][0]
         c = cxx2coq.find_assert_cond(first)
         out.append(pad + 'MOMO_CHECK ' + (rx(c) if c is not None else '?')); return ('expr', '')
-    if k in ('DoStmt', 'ForStmt', 'SwitchStmt', 'GotoStmt', 'ContinueStmt'):
+    if k in ('DoStmt', 'ForStmt', 'SwitchStmt', 'GotoStmt'):
         raise Deviation('unsupported statement kind %s' % k)
     # expression statement (MOMO_ASSERT expands to a conditional around __assert_fail)
     if k in ('ConditionalOperator', 'CStyleCastExpr', 'ParenExpr', 'CXXFunctionalCastExpr', 'CXXStaticCastExpr') and cxx2coq.is_assert_stmt(n):
@@ -481,6 +490,10 @@ TABLE_MEMBERS = [('DataTable::pvCreateRawMemPool', 'pvCreateRawMemPool', ('CXXMe
                  ('DataTable::pvCreateRaw<RawCreator>', 'pvCreateRaw', ('CXXMethodDecl',), {'nparams': 1}),
                  ('DataTable::pvNewRow<...>', 'pvNewRow', ('CXXMethodDecl',), {}),
                  ('DataTable::pvDestroyRaw', 'pvDestroyRaw', ('CXXMethodDecl',), {})]
+# row creation by copy, insertion / update of a row, table copy construction, removal by filter: they reach the free-list code only through
+# pvCreateRaw / pvDestroyRaw / pvDestroyRaws / ExtractRaw (all modelled); pinned so that a new direct use of the pool or the list is noticed
+EXPECTED_TEXT.update({'DataTable::pvImportRaw': 'var rawCreator = lambda{ this->GetColumnList().ImportRaw(this->GetMemManager(), srcColumnList, srcRaw, raw) }\nreturn this->pvCreateRaw(rawCreator)', 'DataTable::pvCreateRaw()': 'var rawCreator = lambda{ this->GetColumnList().CreateRaw(this->GetMemManager(), raw) }\nreturn this->pvCreateRaw(rawCreator)', 'DataTable::TryInsert': 'MOMO_CHECK cast(((checkMode != assertion) || (rowNumber <= this->GetCount())))\nvar res = this->TryAdd(move(row))\nif res.operator bool() {\n  rotate(Next(this->mRaws.GetBegin(), rowNumber), prev(this->mRaws.GetEnd(), <default>), this->mRaws.GetEnd())\n  this->pvSetNumbers(rowNumber)\n}\nreturn construct(res)', 'DataTable::TryUpdate(rowNumber,Row&&)': 'MOMO_CHECK cast(((checkMode != assertion) || (rowNumber < this->GetCount())))\nvar raw = op(operator[], this->mRaws, rowNumber)\nvar res = this->mIndexes.UpdateRaw(raw, row.GetRaw())\nif (res.raw != null) {\n  return {this->pvMakeRowReference(res.raw), res.uniqueHashIndex}\n}\nthis->pvDestroyRaw(raw)\n(raw = ExtractRaw(row))\nthis->pvSetNumber(raw, rowNumber)\n(++this->mCrew.GetChangeVersion())\n(++this->mCrew.GetRemoveVersion())\nreturn {this->pvMakeRowReference(raw), empty}', 'DataTable::pvFill (table copy construction)': 'var columnList = this->GetColumnList()\nif value {\n  this->Reserve(rows.GetCount())\n}\ntry {\n  for rowRef in rows {\n    if (!op(operator(), rowFilter, construct(rowRef))) {\n      continue\n    }\n    this->mRaws.Reserve((this->mRaws.GetCount() + 1))\n    var raw = this->pvImportRaw(columnList, rowRef.GetRaw())\n    try {\n      this->mIndexes.AddRaw(raw)\n    } catch (...) {\n      this->pvDestroyRaw(raw)\n      throw\n    }\n    this->mRaws.AddBackNogrow(raw)\n  }\n} catch (...) {\n  this->pvDestroyRaws()\n  this->mRaws.Clear(<default>)\n  throw\n}\nthis->pvSetNumbers(<default>)', 'DataTable::pvRemove(rowFilter)': 'var rawSet = construct(construct(), construct(this->GetMemManager()))\nfor raw in this->mRaws {\n  if op(operator(), rowFilter, this->pvMakeConstRowReference(raw)) {\n    rawSet.Insert(raw)\n  }\n}\nvar rawFilter = lambda{ return (!rawSet.ContainsKey(raw)) }\nthis->pvFilterRaws(construct(rawFilter))'})
+TABLE_MEMBERS += [('DataTable::pvImportRaw', 'pvImportRaw', ('CXXMethodDecl',), {}), ('DataTable::pvCreateRaw()', 'pvCreateRaw', ('CXXMethodDecl',), {'nparams': 0}), ('DataTable::TryInsert', 'TryInsert', ('CXXMethodDecl',), {}), ('DataTable::TryUpdate(rowNumber,Row&&)', 'TryUpdate', ('CXXMethodDecl',), {'first_param': 'size_t'}), ('DataTable::pvFill (table copy construction)', 'pvFill', ('CXXMethodDecl',), {}), ('DataTable::pvRemove(rowFilter)', 'pvRemove', ('CXXMethodDecl',), {'nparams': 1})]
 ROW_MEMBERS = [('DataRow(DataRow&&)', 'DataRow', ('CXXConstructorDecl',), {'nparams': 1, 'first_param': '&&'}),
                ('DataRow(columnList,raw,freeRaws)', 'DataRow', ('CXXConstructorDecl',), {'nparams': 3}),
                ('DataRow::operator=(DataRow&&)', 'operator=', ('CXXMethodDecl',), {'first_param': '&&'}),
@@ -563,11 +576,14 @@ def check(repo, prog_lines):
     for (fn, member, kinds, kw) in ROW_MEMBERS + TABLE_MEMBERS:
         bodies = find_member(objs_r, 'DataRow', member, kinds, **kw) if (fn, member, kinds, kw) in ROW_MEMBERS else \
             find_member(objs_t, 'DataTable', member, kinds, **kw)
-        if len(bodies) != 1:
-            obl.append({'name': 'AST: instantiated body of ' + fn, 'ok': False, 'detail': '%d instantiated bodies found' % len(bodies)})
-            continue
         try:
-            lines = []; norm_stmt(bodies[0], lines, 0); text = '\n'.join(lines)
+            texts_ = set()
+            for b_ in bodies:      # a member template may be instantiated several times (pvCreateRaw<lambda>): all instantiations must agree
+                lines = []; norm_stmt(b_, lines, 0); texts_.add('\n'.join(lines))
+            if len(texts_) != 1:
+                obl.append({'name': 'AST: instantiated body of ' + fn, 'ok': False, 'detail': '%d instantiated bodies, %d different texts' % (len(bodies), len(texts_))})
+                continue
+            text = texts_.pop()
         except (Deviation, KeyError, IndexError, TypeError) as e:
             obl.append({'name': 'AST: canonical form of ' + fn, 'ok': False, 'detail': 'cannot normalise: %r' % (e,)})
             continue
